@@ -88,6 +88,7 @@ def generate(seed, run, tier):
     p_lookup = sw.choice([0.15, 0.35, 0.6])
     p_pit = sw.choice([0.0, 0.0, 0.08, 0.2])
     adversarial = sw.chance(0.5)
+    p_default_fn = sw.choice([0.0, 0.0, 0.15, 0.4])
     p_reuse = sw.choice([0.0, 0.3, 0.8])      # lookups that re-use ONE description dict per layer type, edited in place
     # what each registrant task will register, in its program order
     regs = []
@@ -129,6 +130,10 @@ def generate(seed, run, tier):
             live.remove(i)
         fid += 1
         ops.append({'op': 'reg', 'task': i, 'type': t, 'pat': p, 'fid': fid})
+        if rs.chance(p_default_fn):
+            # the user registers the specification's own default function ("these layers are free" in a zero-default
+            # spec, "these layers are unsupported" in a fail-default spec)
+            ops[-1]['use_default'] = True
         if rs.chance(p_lookup):
             add_lookups(rs.randint(1, 3))
     add_lookups(rs.randint(2, 6))
@@ -230,6 +235,7 @@ def execute(case):
     ident = {}        # id(function) -> label
     registered = {t: [] for t in TYPES}      # reference: type -> list of (pat, fid) in order
     shared_specs = {}
+    default_fids = set()
     ident[id(cs.default)] = 'DEFAULT'
 
     def mk_fn(fid):
@@ -247,13 +253,14 @@ def execute(case):
         regs = registered[tname]
         M = [fid for (p, fid) in regs if p != 'U' and tname != 'Linear' and sat[p]]
         U = [fid for (p, fid) in regs if p == 'U']
+        lab = lambda f: 'DEFAULT' if f in default_fids else f      # noqa: E731  (same object as the default)
         if len(M) == 1:
-            return 'M1', {M[0]}, False
+            return 'M1', {lab(M[0])}, False
         if len(M) == 0:
             if U:
-                return 'M0U', {U[-1]}, False
+                return 'M0U', {lab(U[-1])}, False
             return 'M0D', {'DEFAULT'}, False
-        return 'M2', set(M), True
+        return 'M2', {lab(f) for f in M}, True
 
     def noncanonical(tname):
         regs = registered[tname]
@@ -266,9 +273,14 @@ def execute(case):
         kind = op['op']
         if kind == 'reg':
             fn, val = mk_fn(op['fid'])
+            if op.get('use_default'):
+                fn, val = cs.default, 0.0
+                default_fids.add(op['fid'])
+                bump('registrations_of_the_default_function')
+            else:
+                ident[id(fn)] = op['fid']
             fns[op['fid']] = fn
             vals[op['fid']] = val
-            ident[id(fn)] = op['fid']
             cs[(tmap[op['type']], cmap[op['pat']])] = fn
             registered[op['type']].append((op['pat'], op['fid']))
             bump('registrations')
@@ -348,7 +360,9 @@ def execute(case):
                         must_raise = True
                     cand = [0.0]
                 else:
-                    cand = [vals[a] for a in accept]
+                    cand = [0.0 if a == 'DEFAULT' else vals[a] for a in accept]
+                    if 'DEFAULT' in accept and case['default'] == 'fail':
+                        ke_ok = True          # one acceptable answer is the failing default function
                 totals = {t + c for t in totals for c in cand}
             try:
                 pit = PIT(net, cost=cs, input_shape=(3, 6, 6))
@@ -430,7 +444,7 @@ def execute(case):
                     if vname == 'reverse':
                         regs.reverse()
                     for p, fid in regs:
-                        c2[(tmap[t], cmap[p])] = fns[fid]
+                        c2[(tmap[t], cmap[p])] = c2.default if fid in default_fids else fns[fid]
                 variants[vname] = c2
             for t in TYPES:
                 if not registered[t]:
